@@ -417,7 +417,14 @@ def apply_ghost(text, label, ghost, report):
                 j += 1
             cbody = text[i + len(old):j].strip()
             ghost_lines = "\n".join(tag(["    " + l.strip() for l in body if l.strip()]))
-            text = text[:i] + new + "\n" + ghost_lines + "\n{ " + cbody + " }" + text[j:]
+            # `|(k, v)| ==> |kv: T| -> (o: T) ;; let (k, v) = kv;`: a pattern parameter is bound by a `let` at the top of the
+            # body (the language-defined meaning of a pattern in parameter position; Verus only takes plain variables there)
+            prelude_ = ""
+            if ";;" in new:
+                new, prelude_ = [x.strip() for x in new.split(";;", 1)]
+                prelude_ += " "
+                _bump(report, "N9b closure pattern parameter bound by a let at the top of the body")
+            text = text[:i] + new + "\n" + ghost_lines + "\n{ " + prelude_ + cbody + " }" + text[j:]
             _bump(report, "N9 closure parameters typed and result named")
     for kind, arg, body in secs:
         if kind == "ret":
